@@ -191,7 +191,7 @@ func Corrupt(t *rapid.T, frame []byte) ([]byte, string) {
 	f := make([]byte, len(frame))
 	copy(f, frame)
 	n := len(f)
-	kind := rapid.IntRange(0, 11).Draw(t, "corruptKind")
+	kind := rapid.IntRange(0, 12).Draw(t, "corruptKind")
 	note := ""
 	switch kind {
 	case 0: // single bit flip anywhere
@@ -245,6 +245,17 @@ func Corrupt(t *rapid.T, frame []byte) ([]byte, string) {
 			f[n-1] ^= 1
 		}
 		note = "shorter-length+crc"
+	case 12: // the leader read as a 16-bit length: reserved bits set, that many payload bytes, good CRC
+		l := rapid.SampledFrom([]int{1024, 1024, 1025, 1027, 1279, 1536, 2047, 2048}).Draw(t, "wideLen")
+		body := make([]byte, 3+l)
+		body[0], body[1], body[2] = 0xD3, byte(l>>8), byte(l)
+		copy(body[3:], frame[3:n-3])
+		for i := 3 + n - 6; i < len(body); i++ {
+			body[i] = byte(i * 7)
+		}
+		c := ref.CRC24Q(body)
+		f = append(body, byte(c>>16), byte(c>>8), byte(c))
+		note = "16-bit-length+crc"
 	case 11: // payload byte changed
 		if n > 7 {
 			p := rapid.IntRange(3, n-4).Draw(t, "payloadPos")
